@@ -17,16 +17,18 @@ class RecEnv(Environment):
         self.popped = []      # (record, now after the pop)
         self.problems = []
         self.on_done = None   # called with every processed event (after its callbacks)
+        self.nstep = 0        # number of step() calls entered so far: schedule() calls made during step k carry 'step': k
 
     def schedule(self, event, priority=NORMAL, delay=0):
         rec = {'ev': event, 'time': self.now + delay, 'prio': int(priority), 'seq': self.seq, 'typ': type(event).__name__,
-               'at': self.now, 'delay': delay}
+               'at': self.now, 'delay': delay, 'step': self.nstep}
         self.seq += 1
         self.pending.append(rec)
         super().schedule(event, priority, delay)
 
     def step(self):
         before = self.now
+        self.nstep += 1
         cands = [r for r in self.pending if r['ev'].callbacks is not None]
         try:
             super().step()
@@ -60,12 +62,61 @@ def run_recorded(case):
     return r, r.env
 
 
+def is_interrupt_delivery(rec, y):
+    """`rec` = ('resumed', …) with an Interrupt thrown at the yield recorded in `y`: a delivered interrupt, unless the awaited
+    event itself failed with an Interrupt (a process that re-raised its Interrupt): the kernel then throws a copy whose
+    __cause__ is the awaited event's own exception"""
+    if rec[3] or type(rec[4]).__name__ != 'Interrupt':
+        return False
+    if y is not None and getattr(y[6], '_ok', True) is False and getattr(rec[4], '__cause__', None) is y[6]._value:
+        return False
+    return True
+
+
+def urgent_trigger_order(r):
+    """restates C01 "process starts, interrupts … take effect … within each of these two classes strictly in the order in which
+    they were triggered", on what the program itself observes: occurrences of the urgent class have no delay, so over a whole
+    run the process starts and interrupt deliveries (of DIFFERENT processes too) must happen in the order in which the
+    program called env.process() / interrupt().  Interrupts discarded because the victim had ended are simply absent."""
+    trig, starts, issued = [], {}, {}
+    for rec in r.rec:
+        if rec[0] == 'spawned':
+            starts[rec[2]] = len(trig); trig.append(('start of process', rec[2][0], None, rec[3]))
+        elif rec[0] == 'interrupt' and not rec[7]:
+            issued.setdefault(rec[3], []).append(len(trig)); trig.append(('interrupt of process', rec[3][0], rec[4], rec[8]))
+    order, waiting, ndeliv = [], {}, {}
+    for rec in r.rec:
+        if rec[0] == 'yield':
+            waiting[rec[2]] = rec
+        elif rec[0] == 'started':
+            if rec[2] in starts:
+                order.append((starts[rec[2]], rec[3]))
+        elif rec[0] == 'resumed':
+            y = waiting.pop(rec[2], None)
+            if is_interrupt_delivery(rec, y) and type(rec[4].cause).__name__ != 'Preempted':
+                k = ndeliv.get(rec[2], 0); ndeliv[rec[2]] = k + 1
+                mine = issued.get(rec[2], [])
+                if k >= len(mine) or trig[mine[k]][2] != rec[4].cause:
+                    return []          # which interrupt this is cannot be told (per-victim order is the subject of C04)
+                order.append((mine[k], rec[5]))
+    for (a, ta), (b, tb) in zip(order, order[1:]):
+        if b < a:
+            d = lambda i: f'{trig[i][0]} {trig[i][1]}' + (f' (cause {trig[i][2]})' if trig[i][2] is not None else '') + f' triggered at {trig[i][3]} as urgent occurrence #{i}'
+            return [{'what': f'urgent occurrences took effect out of trigger order: {d(a)} took effect (at {ta}) before {d(b)} (at {tb})',
+                     'signature': 'c01-urgent-trigger-order'}]
+    return []
+
+
 def oracle_c01(case, lines, runner=None):
     """time order / urgent first / trigger order / exact due time / priority classes, from the recorded schedule"""
-    if case.mode != 'step' or externally_triggered(instrumented(case)):
+    if case.mode != 'step':
+        return []
+    ri = instrumented(case)
+    if externally_triggered(ri):
         return []
     r, env = run_recorded(case)
     fails = [{'what': p, 'signature': 'c01-order'} for p in env.problems[:2]]
+    fails += urgent_trigger_order(ri)
     for rec in env.pending + [x for x, _ in env.popped]:
         t = rec['typ']
         if t in ('Initialize', 'Interruption') and (rec['prio'] != int(URGENT) or rec['delay'] != 0):
@@ -101,6 +152,10 @@ class OracleRunner(kscript.Runner):
         self.processed = {}     # label -> (seqno, now, ok, value)
         self.conds = {}         # label -> (kind, [operand events])
         self.cond_pre = {}      # label -> [operand already processed at construction]
+        self.cond_at = {}       # label -> (step in which it was constructed, already triggered when the constructor returned)
+        self.pstep = {}         # label -> step in which the event was processed
+        self.keepcb = []
+        self.ended = []         # (Process, name, returned normally?, value or exception, now): how each script generator ended
         self.seqno = 0
 
     def _tick(self):
@@ -110,28 +165,46 @@ class OracleRunner(kscript.Runner):
     def _done(self, e):
         lab = self.lab(e)
         if lab and lab not in self.processed:
+            self.pstep[lab] = self.env.nstep
             self.processed[lab] = (self._tick(), self.env.now, e._ok, e._value,
                                    [self.lab(x) for x in e._value.events] if type(e._value).__name__ == 'ConditionValue' else None)
 
     def hook(self, what, *a):
+        # processes are identified by the Process object the script generator runs in (handed to it by the interpreter): static
+        # names can be shared by several spawned processes, and env.active_process is part of what is being checked
         if what == 'yield':
-            name, ev = a
-            name = (name, id(self.env.active_process))      # static names can be shared by several spawned processes
-            self.rec.append(('yield', self._tick(), name, self.lab(ev), self.env.now, ev.callbacks is None, ev))
+            name, ev, me = a
+            self.rec.append(('yield', self._tick(), (name, id(me)), self.lab(ev), self.env.now, ev.callbacks is None, ev))
         elif what == 'resumed':
-            name, ok, v = a
-            name = (name, id(self.env.active_process))
-            self.rec.append(('resumed', self._tick(), name, ok, v, self.env.now))
+            name, ok, v, me = a
+            self.rec.append(('resumed', self._tick(), (name, id(me)), ok, v, self.env.now))
         elif what == 'trigger':
             name, ev, was, raised = a
             self.rec.append(('trigger', self._tick(), name, self.lab(ev), was, raised))
         elif what == 'interrupt':
-            name, victim, cause, alive, selfi, raised = a
-            self.rec.append(('interrupt', self._tick(), name, (self.pnames.get(id(victim)), id(victim)), cause, alive, selfi, raised, self.env.now))
+            name, victim, cause, alive, selfi, raised, me, busy = a
+            self.rec.append(('interrupt', self._tick(), name, (self.pnames.get(id(victim)), id(victim)), cause, alive, selfi, raised, self.env.now, busy))
         elif what == 'cond':
             ev, kind, evs = a
             self.conds[self.lab(ev)] = (kind, list(evs), self.env.now, self._tick())
             self.cond_pre[self.lab(ev)] = [e.callbacks is None for e in evs]      # what the constructor saw
+            self.cond_at[self.lab(ev)] = (self.env.nstep, ev.triggered)
+        elif what == 'spawned':
+            p, name = a
+            self.rec.append(('spawned', self._tick(), (name, id(p)), self.env.now))
+        elif what == 'started':
+            p, name = a
+            self.rec.append(('started', self._tick(), (name, id(p)), self.env.now))
+        elif what == 'ended':
+            p, name, ok, v = a
+            self.ended.append((p, name, ok, v, self.env.now))
+        elif what == 'probe':
+            ev, cb = a
+            self.keepcb.append(cb)      # keeps id(cb) unique for the whole run
+            self.rec.append(('probe', self._tick(), id(cb), self.lab(ev)))
+        elif what == 'probed':
+            ev, cb = a
+            self.rec.append(('probed', self._tick(), id(cb), self.lab(ev)))
 
 
 def same_outcome(ev_ok, ev_val, got_ok, got):
@@ -170,6 +243,48 @@ def lost_waiters(r, waiting, ext):
         if p is not None and not was_processed and p[0] > yseq and lab not in ext:
             return [{'what': f'process {name[0]} yielded event e{lab} at {ynow}; the event was processed at {p[1]} but the process was never '
                              f'resumed (a waiter registered at that moment was not invoked)', 'signature': 'c02-waiter-lost'}]
+    return []
+
+
+def registration_order(r, ext):
+    """restates C02 "every callback and every process waiting on it at that moment is invoked …, in registration order": among
+    the processes resumed and the probe callbacks invoked by ONE event, the order of invocation is the order of their current
+    registrations (for a process: its latest yield of that event - an interrupt cancels the earlier registration)"""
+    waiting, probes, invoked = {}, {}, {}
+    for rec in r.rec:
+        if rec[0] == 'yield':
+            waiting[rec[2]] = rec
+        elif rec[0] == 'resumed':
+            y = waiting.pop(rec[2], None)
+            if y is not None and not y[5] and not is_interrupt_delivery(rec, y):
+                invoked.setdefault(y[3], []).append((y[1], f'process {rec[2][0]} (yielded it at {y[4]})'))
+        elif rec[0] == 'probe':
+            probes[rec[2]] = rec
+        elif rec[0] == 'probed' and rec[2] in probes:
+            invoked.setdefault(rec[3], []).append((probes[rec[2]][1], 'a probe callback'))
+    for lab, lst in invoked.items():
+        if lab in ext:
+            continue
+        for (sa, wa), (sb, wb) in zip(lst, lst[1:]):
+            if sb < sa:
+                return [{'what': f'event e{lab}: {wa} registered after {wb} but was invoked before it (waiters are invoked in '
+                                 f'registration order)', 'signature': 'c02-registration-order'}]
+    return []
+
+
+def termination_events(r, ext):
+    """restates C02 "a process's own termination is such an event carrying its return value or its uncaught exception": once the
+    generator of a process has returned / died, the Process event is triggered with exactly that outcome"""
+    for p, name, ok, v, now in r.ended:
+        if r.lab(p) in ext:
+            continue
+        what = f'returned {v!r}' if ok else f'died with {v!r}'
+        if not p.triggered:
+            return [{'what': f'the generator of process {name} {what} at {now} but its Process event was never triggered (is_alive is '
+                             f'still {p.is_alive}): nobody waiting for that process can be resumed', 'signature': 'c02-termination-event'}]
+        if not same_outcome(p.ok, p.value, ok, v):
+            return [{'what': f'the generator of process {name} {what} at {now} but its Process event carries '
+                             f'{"value" if p.ok else "exception"} {p.value!r}', 'signature': 'c02-termination-event'}]
     return []
 
 
@@ -223,6 +338,8 @@ def oracle_c02(case, lines, runner=None):
                 fails.append({'what': f'succeed/fail on e{lab} (already triggered: {was}) {"raised" if raised else "did not raise"} RuntimeError',
                               'signature': 'c02-trigger-once'}); break
     fails += lost_waiters(r, waiting, ext)
+    fails += registration_order(r, ext)
+    fails += termination_events(r, ext)
     # failures are never lost: a processed failed event is either defused or made the run raise its exception
     xs = [l for l in lines if l.startswith('X ')]
     failed_types = {type(ev._value).__name__ for ev in r.keep if getattr(ev, '_ok', True) is False}
@@ -248,19 +365,32 @@ def oracle_c04(case, lines, runner=None):
     issued = {}      # victim name -> list of (cause, now)
     got = {}
     waiting = {}
+    owed = {}        # victim -> the accepted interrupt it must receive before anything else resumes it
     for rec in r.rec:
         if rec[0] == 'yield':
             waiting[rec[2]] = rec
+        if rec[0] == 'resumed':
+            # restates "receive Interrupt(cause) at its current yield at the current simulated time, before any ordinary event of that
+            # instant": a suspended process whose awaited event is not already being processed is resumed next by the interrupt
+            # (or by an interrupt issued earlier), never by something else first - an interrupt is urgent and due at once
+            y = waiting.get(rec[2])
+            o = None if (y is not None and y[5]) else owed.pop(rec[2], None)      # continuing after an already processed event is no resumption
+            if o is not None and not is_interrupt_delivery(rec, y):
+                fails.append({'what': f'process {rec[2][0]} was interrupted (cause {o[4]}) at {o[8]} while it was waiting, but the next thing it '
+                                      f'received, at {rec[5]}, is {"the value" if rec[3] else "the exception"} {rec[4]!r} of the event it was waiting for, '
+                                      f'not the Interrupt: an ordinary event overtook the interrupt', 'signature': 'c04-overtaken'}); break
         if rec[0] == 'resumed' and (not rec[3]) and type(rec[4]).__name__ == 'Interrupt':
             y = waiting.get(rec[2])
             if y is not None and getattr(y[6], '_ok', True) is False and getattr(rec[4], '__cause__', None) is y[6]._value:
                 continue      # not an interrupt: the awaited event (a process that re-raised its Interrupt) failed with this
                               # exception - the kernel throws a copy whose __cause__ is the awaited event's own exception
         if rec[0] == 'interrupt':
-            _, seq, by, victim, cause, alive, selfi, raised, now = rec
+            _, seq, by, victim, cause, alive, selfi, raised, now, busy = rec
+            if not raised and not busy and not selfi:
+                owed.setdefault(victim, rec)
             should = (not alive) or selfi
             if should != raised:
-                fails.append({'what': f'interrupt() by process {by} on process {victim} (alive: {alive}, itself: {selfi}) '
+                fails.append({'what': f'interrupt() called at {now} by process {by} on process {victim[0]} (alive: {alive}, itself: {selfi}) '
                                       f'{"raised" if raised else "did not raise"} RuntimeError', 'signature': 'c04-refusal'}); break
             if not raised:
                 issued.setdefault(victim, []).append((cause, now))
@@ -269,7 +399,7 @@ def oracle_c04(case, lines, runner=None):
     for victim, g in got.items():
         want = issued.get(victim, [])
         if g != want[:len(g)]:
-            fails.append({'what': f'process {victim} received interrupts {g}, issued (cause, instant) were {want}', 'signature': 'c04-delivery-order'})
+            fails.append({'what': f'process {victim[0]} received interrupts {g}, issued (cause, instant) were {want}', 'signature': 'c04-delivery-order'})
             break
     return fails[:3]
 
@@ -364,7 +494,41 @@ def oracle_c05(case, lines, runner=None):
         else:
             if fail_first is None:
                 fails.append({'what': f'{kind} e{lab} failed although no operand failed', 'signature': 'c05-spurious-fail'}); break
+    fails += operand_failure_handled(r, by_label, ext, nested)
     return fails[:3]
+
+
+def operand_failure_handled(r, by_label, ext, nested):
+    """restates C05 "if an operand fails before the condition is met the condition fails with that operand's exception (the
+    operand's failure then counts as handled)", for the operands as the program gave them (a nested condition is ONE operand):
+    an operand E of a condition C built before E was processed, that is processed as failed, must end up handled (`defused`),
+    unless C was out of the game by then - met, or failed because another of its operands had failed before (DESIGN section 3:
+    operands completing after the condition triggered change nothing), or detached by a parent condition that fired first."""
+    trig_step = {}
+    for rec in [x for x, _ in r.env.popped] + r.env.pending:
+        trig_step.setdefault(id(rec['ev']), rec['step'])
+    for lab, (kind, ops, t_created, seq_created) in r.conds.items():
+        c = by_label.get(lab)
+        built, pre = r.cond_at.get(lab, (None, True))
+        if c is None or pre or lab in ext or lab in nested or any(r.lab(e) in ext for e in nodes(c)):
+            continue
+        tc = trig_step.get(id(c))
+        for e in ops:
+            le = r.lab(e)
+            pe = r.pstep.get(le)
+            if pe is None or pe <= built or r.processed[le][2] or e.defused:
+                continue
+            if tc is not None and tc < pe:
+                # C was triggered before E was processed: fine if it was met, or failed on an operand that had failed by then
+                if c.ok or any(r.pstep.get(r.lab(f)) is not None and r.pstep[r.lab(f)] <= tc and not r.processed[r.lab(f)][2] for f in ops):
+                    continue
+                why = (f'e{lab} itself had failed earlier (in kernel step {tc}) although none of its operands had failed by then')
+            else:
+                why = f'e{lab} had not been triggered when e{le} was processed (kernel step {pe})'
+            return [{'what': f'operand e{le} of {kind} e{lab} (operands {[r.lab(x) for x in ops]}) failed with {r.processed[le][3]!r} at '
+                             f'{r.processed[le][1]} before the condition was met, but its failure was not counted as handled (not defused: '
+                             f'the run raises it); {why}', 'signature': 'c05-operand-failure-unhandled'}]
+    return []
 
 
 def oracle_until_failed(case, lines, runner=None):
